@@ -8,6 +8,7 @@
 //	         K k -> t|f            ContainsKey       W v -> t|f        ContainsValue
 //	         S -> n                Size              E -> t|f          IsEmpty
 //	         L -> <layout>         hook VerifC05Dump V -> t|f          hook VerifC05Verify
+//	         G n -> d              hook VerifC05MaxDegree (float maxDegree of a heap with n entries)
 //	a panic inside an op is the result PANIC, a hang (watchdog) is HANG and ends the process.
 package main
 
@@ -135,6 +136,8 @@ func exec(w *tr.W, h heap.IndexedHeap[int, int], op string) {
 			res = heap.VerifC05Dump(h)
 		case "V":
 			res = b(heap.VerifC05Verify(h))
+		case "G":
+			res = strconv.Itoa(heap.VerifC05MaxDegree(a(1)))
 		}
 	}()
 	wmu.Lock()
@@ -382,8 +385,43 @@ func cascade(w *tr.W, r *rng.R, cases int) {
 	}
 }
 
+// maxdeg: the float expression int(log(n)/log(phi))+1 against the model's exact value.
+func maxdeg(w *tr.W, r *rng.R, dense, random int) {
+	var ops []string
+	flush := func() {
+		if len(ops) > 0 {
+			runCase(w, "F", "min", 0, ops)
+			ops = nil
+		}
+	}
+	add := func(n int) {
+		if n >= 1 && n <= 1000000 {
+			ops = append(ops, fmt.Sprintf("G %d", n))
+			if len(ops) == 500 {
+				flush()
+			}
+		}
+	}
+	for n := 1; n <= dense; n++ {
+		add(n)
+	}
+	// around Fibonacci and Lucas numbers, where phi^d is closest to an integer
+	f0, f1, l0, l1 := 0, 1, 2, 1
+	for f1 <= 1000000 {
+		for d := -2; d <= 2; d++ {
+			add(f1 + d)
+			add(l1 + d)
+		}
+		f0, f1, l0, l1 = f1, f0+f1, l1, l0+l1
+	}
+	for i := 0; i < random; i++ {
+		add(r.Range(1, 1000000))
+	}
+	flush()
+}
+
 func main() {
-	mode := flag.String("mode", "exhaustive", "exhaustive|random|cascade")
+	mode := flag.String("mode", "exhaustive", "exhaustive|random|cascade|maxdeg")
 	tier := flag.String("tier", "quick", "quick|thorough")
 	replay := flag.String("replay", "", "case file to re-execute")
 	flag.Parse()
@@ -428,6 +466,13 @@ func main() {
 			random(w, r, 40000, true)
 		} else {
 			random(w, r, 2500, true)
+		}
+	case "maxdeg":
+		r := rng.FromEnv(555)
+		if thorough {
+			maxdeg(w, r, 1000000, 0)
+		} else {
+			maxdeg(w, r, 30000, 20000)
 		}
 	case "cascade":
 		r := rng.FromEnv(55)
